@@ -840,8 +840,8 @@ func gen(r *Rng, tier string, emit func(Sx)) {
 		cfg := cfgs[r.Intn(len(cfgs))]
 		ts := forkTimes(cfg)
 		t := ts[r.Intn(len(ts))]
-		if r.Chance(1, 4) {
-			t = uint64(r.Intn(400))
+		if r.Chance(1, 2) {
+			t = uint64(100 + r.Intn(300)) // mostly after the synthetic schedules' activation times
 		}
 		bc := specActive(cfg, t)
 		uf, tgt, mx := uint64(3338477), 3, 6
@@ -863,7 +863,10 @@ func gen(r *Rng, tier string, emit func(Sx)) {
 			case 2:
 				return uint64(r.Intn(40)) * uf / 3
 			case 3:
-				return uint64(r.Intn(400)) * uf
+				if r.Chance(1, 12) {
+					return uint64(r.Intn(160)) * uf
+				}
+				return uint64(r.Intn(30)) * uf
 			}
 			return uint64(r.Intn(int(min(uf*30, 1<<40))))
 		}
@@ -933,7 +936,7 @@ func gen(r *Rng, tier string, emit func(Sx)) {
 			bc.Target = 1<<47 - r.Intn(3) // target*2^17 wraps
 		}
 		uf := max(bc.UpdateFraction, 1)
-		e := uint64(r.Intn(300)) * uf / 2
+		e := uint64(r.Intn(50)) * uf / 2
 		u := uint64(r.Intn(30)) * 131072
 		if r.Chance(1, 4) {
 			u = randU64(r)
@@ -945,7 +948,7 @@ func gen(r *Rng, tier string, emit func(Sx)) {
 		emit(L(I(6), bsx(r.Chance(3, 4)), AsList(encBC(&bc))[0], encHdr(parent)))
 	}
 	// ---- kind 4: fakeExponential
-	for i := 0; i < 2500*scale; i++ {
+	for i := 0; i < 1500*scale; i++ {
 		var f, n, d *big.Int
 		d = big.NewInt(int64(r.Intn(1000) + 1))
 		switch r.Intn(6) {
@@ -954,9 +957,9 @@ func gen(r *Rng, tier string, emit func(Sx)) {
 		case 1:
 			d = new(big.Int).SetUint64(r.U64()>>uint(r.Intn(60)) + 1)
 		}
-		ratio := r.Intn(40)
-		if r.Chance(1, 10) {
-			ratio = r.Intn(700)
+		ratio := r.Intn(25)
+		if r.Chance(1, 25) {
+			ratio = r.Intn(200)
 		}
 		n = add(mul(d, bi(int64(ratio))), new(big.Int).Rem(bu(r.U64()), d))
 		f = big.NewInt(1)
